@@ -308,7 +308,7 @@ def run(rep, tier):
         rep.ob("R01.6", "versioned-update|update_impl", some_lit and not none_lit, "the document update must carry the fetched object version (Some(ver))", e.where())
 
     # ------------------------------------------------------------------ R01.7 recovery order in open
-    rep.rule("R01.7", "Collection::open: load_indexes < user callback < replay_mutation_intents < auto_repair_indexes; repair window bounds", floor=5)
+    rep.rule("R01.7", "Collection::open: load_indexes < user callback < replay_mutation_intents < auto_repair_indexes; repair window bounds", floor=6)
     f = body("open")
     rep.saw(f, len(f.events))
     li = f.calls_named(r"Collection::load_indexes$")
@@ -332,6 +332,33 @@ def run(rep, tier):
     chk = bool(g.calls_named(r"^anda_db::storage::Storage::stats$"))
     rep.ob("R01.7", "repair-window", chk and {"max_document_id", "durable_alloc_watermark"} <= fields,
            "the repair scan window is derived from the storage checkpoint, max_document_id and the durable allocation watermark", g.file + ":%d" % g.line)
+
+    # the window includes its upper end: max_document_id is itself an issued id and an add whose id equals the durable
+    # watermark writes its document without publishing a new watermark, so a document can exist at exactly scan_max
+    mx = g.calls_named(r"^core::cmp::Ord::max$")
+    incl = g.calls_named(r"^core::ops::range::RangeInclusive::<Idx>::new$")
+    verdict, site = None, g.file + ":%d" % g.line
+    for e in incl:
+        hi = _shallow_origin(g, e.args[1]) if len(e.args) > 1 else None
+        if hi and hi[0] == "call" and hi[1] in mx:
+            verdict, site = True, e.where()
+    if verdict is None:
+        for b in g.live_blocks():
+            for st in g.stmts(b):
+                if st[0] == "A" and st[2]["k"] == "agg" and (st[2]["a"].get("def") or "") == "core::ops::range::Range":
+                    hi = _shallow_origin(g, st[2]["ops"][1])
+                    if hi and hi[0] == "call" and hi[1] in mx:
+                        verdict, site = False, g.file + ":%d" % st[3]          # exclusive end == scan_max: the last id is skipped
+                    elif hi and hi[0] == "bin" and hi[1]["op"] in ("Add", "AddWithOverflow", "AddUnchecked"):
+                        a0 = _shallow_origin(g, hi[1]["a"])
+                        k1 = core.op_const(hi[1]["b"])
+                        if a0 and a0[0] == "call" and a0[1] in mx and k1 is not None and str(k1.get("int")) not in ("0", "None"):
+                            verdict, site = True, g.file + ":%d" % st[3]
+    if verdict is None:
+        rep.fault("R01.7: the id range scanned by auto_repair_indexes was not recognised (neither lo..=max(..) nor lo..max(..)+k)")
+    else:
+        rep.ob("R01.7", "repair-window-inclusive", verdict,
+               "the repair scan must include its upper bound max(max_document_id, durable_alloc_watermark): a document can exist at exactly that id", site)
 
     # ------------------------------------------------------------------ R01.9 error discipline
     rep.rule("R01.9", "no storage-write Result is dropped in the checkpoint/intent functions; tolerated best-effort drops are the named sites", floor=10)
@@ -387,6 +414,30 @@ def _err_targets(f, e):
             if t is not None:
                 out.append(t)
     return out
+
+
+def _shallow_origin(g, o, depth=0):
+    """Definition of operand `o` followed through plain copies/moves only: ("call", Event) | ("bin", rvalue) | ("const", k) | None."""
+    p = core.op_place(o)
+    if p is None:
+        k = core.op_const(o)
+        return ("const", k) if k is not None else None
+    if depth > 12:
+        return None
+    ds = g.defs.get(p.l, [])
+    if len(ds) != 1:
+        return None
+    (b, i, kind, data) = ds[0]
+    if kind == "call":
+        g.events
+        ev = g._ev_at.get(b)
+        return ("call", ev) if ev is not None else None
+    rv = data[2]
+    if rv["k"] in ("use", "cast"):
+        return _shallow_origin(g, rv["o"], depth + 1)
+    if rv["k"] == "bin":
+        return ("bin", rv)
+    return None
 
 
 def _ok_return_blocks(f):
